@@ -128,6 +128,10 @@ CHECKS['C13'] = dict(
 NOT_APPLICABLE = {
 }
 
+FULL_IN_QUICK = {'C01', 'C02', 'C03', 'C04', 'C05', 'C06', 'C07', 'C08', 'C09', 'C10', 'C11', 'C14', 'C15', 'C17', 'C18', 'C19'}
+FULL_NOTE = (' Tiers: the full cell set of this property takes seconds, so the quick command runs the same cells as the thorough one (where the text above names a '
+             'reduced "quick" cell set, that reduction is no longer applied); only C12, C13, C16 and C20 have a reduced quick tier.')
+
 PENDING = 'check under construction in this session (design in DESIGN.md section 5); not claimed until its ./check command exists'
 
 
@@ -146,7 +150,7 @@ def main():
             'replay_cmd_template': './check %s --replay {path}' % pid,
             'engine': 'fpsa',
             'level_claimed': {'category': c['category'], 'text': c['text'], 'design_ref': c['design_ref']},
-            'level_note': c['note'],
+            'level_note': c['note'] + (FULL_NOTE if pid in FULL_IN_QUICK else ''),
             'technique': c['technique'],
         })
     na = []
@@ -162,7 +166,7 @@ def main():
         pass
     m = {
         'version': 1,
-        'setup_cmd': 'cargo +nightly build --release --offline --manifest-path driver/Cargo.toml && python3 -m compileall -q fpsa && python3 -m fpsa.extract default packed num-traits all',
+        'setup_cmd': 'cargo +nightly build --release --offline --manifest-path driver/Cargo.toml && python3 -m compileall -q fpsa && python3 -m fpsa.extract default packed num-traits all nostd core-nostd',
         'hooks': {
             'guard': 'fpdec_verif',
             'enable': 'none: static analysis reads the unmodified tree; no hook or instrumentation is compiled into fpdec',
